@@ -56,6 +56,28 @@ def cases(rng, tier):
         yield Case(program=prog, tag='reference', variants=tuple(vs) if True else (), monitor='c01_respell')
         for v in vs[:1]:
             yield Case(program=v, tag='respelled')
+    yield from decorated_cases(rng, tier)
+
+
+def decorated_cases(rng, tier):
+    """non-Hangul text glued to a program where an editor, a shell or another language would put something special:
+    interpreter / comment / pragma / markup prefixes at offset 0 (on the first line, which also holds Hangul), suffixes,
+    brackets and quotes around words, blank and whitespace-only lines — all of it is separators and nothing else"""
+    PRE = ["#!", "#! ", "#!/usr/bin/env ", "#", "# ", "//", "/*", "*/", "--", ";", "%", "'''", '"""', "<!--", "-->", "<?", "?>", "\ufeff", "\ufeff#!",
+           "@", "$", "\\", "`", "~", "REM ", "rem ", ">>> ", "$ ", "0", "1.5e3", "-", "+", "=", "\t", "\x0b", "\x0c", "\r", "\x00", "\x1b[0m", "\u200b", "\u3000", "。", "、"]
+    progs = ["ㄴ ㄷ ㄷㅎㄷ", "ㄹ ㅁ ㄱㅎㄷ", "ㄴ ㄷ (ㄱㅇㄱ ㄴㅇㄱ ㄷㅎㄷ ㅎ) ㅎㄷ", "ㄱ ㄴ ㄷ ㅁㄹㅎㄹ ㅈㄷㅎㄴ"]
+    for pre in PRE:
+        prog = rng.choice(progs)
+        vs = (pre + prog, pre + " " + prog, prog + pre, prog.replace(" ", pre + " ", 1), pre + prog.replace(" ", "\n", 1))
+        vs = tuple(v for v in vs if respell.skeleton(v) == respell.skeleton(prog))
+        yield Case(program=prog, tag='decorated', variants=vs, monitor='c01_respell')
+        yield Case(program=pre + prog, tag='decorated-model')
+    # the same on a multi-line program: decoration on the first, a middle and the last line
+    ml = "ㄴ\nㄷ ㄷ\nㅎㄷ"
+    for pre in PRE:
+        vs = tuple(v for v in (pre + ml, ml.replace("\nㄷ", "\n" + pre + "ㄷ", 1), ml + pre, ml + "\n" + pre, pre + "\n" + ml)
+                   if respell.skeleton(v.replace("\n", " ")) == respell.skeleton(ml.replace("\n", " ")))
+        yield Case(program=ml, tag='decorated-lines', variants=vs, monitor='c01_respell')
 
 
 def relevant(rec, case):
